@@ -68,6 +68,8 @@ type roundOut struct {
 	Fails      []failOut          `json:"fails"`
 	ErrClasses map[string]int     `json:"err_classes"`
 	IOCalls    int64              `json:"io_calls"`
+	ListChecks int                `json:"list_checks"`
+	SeqOps     int                `json:"seq_ops"`
 	Done       bool               `json:"done,omitempty"`
 	Rounds     int                `json:"rounds,omitempty"`
 }
@@ -81,13 +83,28 @@ const (
 )
 
 // world holds the ONE value of each recipient / identity type that every
-// goroutine of the process uses, and the independent reference keys.
+// goroutine of a round uses (constructed afresh for every round, so that the
+// first uses of a value overlap too), the shared identity / recipient LISTS
+// that are spread into Decrypt(src, ids...) / Encrypt(dst, recs...), and the
+// independent reference keys.
 type world struct {
 	rec map[string]age.Recipient
 	ids map[string]age.Identity
 	xi  *age.X25519Identity
 	ei  *agessh.Ed25519Identity
 	ri  *agessh.RSAIdentity
+
+	idLists  map[string][]age.Identity  // shared slices, passed as ids...
+	recLists map[string][]age.Recipient // shared slices, passed as recs...
+	probes   map[string][]byte          // small files for the sequential pass
+
+	// per (GOMAXPROCS, payload) block: the goroutines' own plaintexts, the
+	// reference-built files of them, and reusable output buffers (large fresh
+	// allocations are very expensive under the race detector)
+	blkP, blkSize int
+	blkPts        map[int][]byte
+	blkFiles      map[string][]byte
+	scratch       [][]byte
 
 	x1, x2 *keys.X
 	e1, e2 *keys.Ed
@@ -110,15 +127,51 @@ var objLegend = map[string]string{
 	"Rr": "*agessh.RSARecipient (parsed)",
 	"Rd": "*agessh.RSARecipient from RSAIdentity.Recipient() (points into the identity's private key)",
 	"Ri": "*agessh.RSAIdentity",
+
+	"IL0": "shared []age.Identity{Xi, Si, Ei, Ri} spread into Decrypt(src, ids...)",
+	"IL1": "shared []age.Identity{Ri, Ei, Si, Xi} spread into Decrypt(src, ids...)",
+	"IL2": "shared []age.Identity{Si, Xi, Ri, Ei} spread into Decrypt(src, ids...)",
+	"RL0": "shared []age.Recipient{Xr, Er, Rr} spread into Encrypt(dst, recs...)",
+	"RL1": "shared []age.Recipient{Rd, Ed, Xd} spread into Encrypt(dst, recs...)",
+}
+
+var idListDef = map[string][]string{
+	"IL0": {"Xi", "Si", "Ei", "Ri"},
+	"IL1": {"Ri", "Ei", "Si", "Xi"},
+	"IL2": {"Si", "Xi", "Ri", "Ei"},
+}
+
+var recListDef = map[string][]string{
+	"RL0": {"Xr", "Er", "Rr"},
+	"RL1": {"Rd", "Ed", "Xd"},
 }
 
 func newWorld(seed int64) *world {
-	w := &world{rec: map[string]age.Recipient{}, ids: map[string]age.Identity{}, ref: map[string]refage.Key{},
-		wrongFiles: map[string][]byte{}}
+	w := &world{ref: map[string]refage.Key{}, wrongFiles: map[string][]byte{}, probes: map[string][]byte{}}
 	w.x1, w.x2 = keys.NewX("X1"), keys.NewX("X2")
 	w.e1, w.e2 = keys.LoadEd("ed1"), keys.LoadEd("ed2")
 	w.r1, w.r2 = keys.LoadRSA("rsa1"), keys.LoadRSA("rsa2")
+	w.ref["X"], w.ref["E"], w.ref["R"] = w.x1.Ref, w.e1.Ref, w.r1.Ref
+	w.ref["S"] = refage.ScryptKey{Pass: pass1}
 
+	// files no shared identity can open (built by the reference, once)
+	rng := mon.NewRNG(seed, "c20/wrongfiles")
+	pt := []byte("not for you")
+	for _, p := range []string{"X2", "S2", "E2", "R2", "X1", "E1"} {
+		w.wrongFiles[p] = w.buildFile(p, pt, rng)
+	}
+	for _, p := range []string{"X1", "S1", "E1", "R1"} {
+		w.probes[p] = w.buildFile(p, probePlain, rng)
+	}
+	w.fresh()
+	return w
+}
+
+var probePlain = []byte("c20 sequential pass")
+
+// fresh constructs new shared values and new shared lists (same keys).
+func (w *world) fresh() {
+	w.rec, w.ids = map[string]age.Recipient{}, map[string]age.Identity{}
 	w.xi = w.x1.Identity()
 	w.ei = w.e1.Identity().(*agessh.Ed25519Identity)
 	w.ri = w.r1.Identity().(*agessh.RSAIdentity)
@@ -133,16 +186,47 @@ func newWorld(seed int64) *world {
 	w.rec["Rr"] = w.r1.Recipient()
 	w.rec["Rd"] = w.ri.Recipient()
 
-	w.ref["X"], w.ref["E"], w.ref["R"] = w.x1.Ref, w.e1.Ref, w.r1.Ref
-	w.ref["S"] = refage.ScryptKey{Pass: pass1}
-
-	// files no shared identity can open (built by the reference, once)
-	rng := mon.NewRNG(seed, "c20/wrongfiles")
-	pt := []byte("not for you")
-	for _, p := range []string{"X2", "S2", "E2", "R2", "X1", "E1"} {
-		w.wrongFiles[p] = w.buildFile(p, pt, rng)
+	w.idLists, w.recLists = map[string][]age.Identity{}, map[string][]age.Recipient{}
+	for n, def := range idListDef {
+		for _, m := range def {
+			w.idLists[n] = append(w.idLists[n], w.ids[m])
+		}
 	}
-	return w
+	for n, def := range recListDef {
+		for _, m := range def {
+			w.recLists[n] = append(w.recLists[n], w.rec[m])
+		}
+	}
+}
+
+// listState names the current elements of a shared list ("?" for a value that
+// is none of the shared ones).
+func (w *world) idListState(n string) []string {
+	var out []string
+	for _, v := range w.idLists[n] {
+		name := "?"
+		for k, id := range w.ids {
+			if id == v {
+				name = k
+			}
+		}
+		out = append(out, name)
+	}
+	return out
+}
+
+func (w *world) recListState(n string) []string {
+	var out []string
+	for _, v := range w.recLists[n] {
+		name := "?"
+		for k, r := range w.rec {
+			if r == v {
+				name = k
+			}
+		}
+		out = append(out, name)
+	}
+	return out
 }
 
 // buildFile makes a valid age file for one party with the reference
@@ -180,7 +264,9 @@ func (w *world) buildFile(party string, pt []byte, rng *rand.Rand) []byte {
 // ---- operation templates -----------------------------------------------------
 
 type tmpl struct {
-	name string   // stable name, part of violation keys
+	name string   // stable name
+	key  string   // name used in violation keys (name if empty)
+	list string   // shared list spread into the call (identities for dec/wrong, recipients for enc)
 	kind string   // enc | derive | dec | wrong
 	objs []string // shared objects the operation touches (a derived recipient also touches the identity it aliases)
 	recs []string // enc: names of shared recipients
@@ -198,7 +284,8 @@ var encPool = []*tmpl{
 	{name: "enc:Ed", kind: "enc", objs: []string{"Ed", "Ei"}, recs: []string{"Ed"}, refs: []string{"E"}},
 	{name: "enc:Rr", kind: "enc", objs: []string{"Rr"}, recs: []string{"Rr"}, refs: []string{"R"}},
 	{name: "enc:Rd", kind: "enc", objs: []string{"Rd", "Ri"}, recs: []string{"Rd"}, refs: []string{"R"}},
-	{name: "enc:Xr+Er+Rr", kind: "enc", objs: []string{"Xr", "Er", "Rr"}, recs: []string{"Xr", "Er", "Rr"}, refs: []string{"X", "E", "R"}},
+	{name: "enc:RL0...", list: "RL0", kind: "enc", objs: []string{"RL0", "Xr", "Er", "Rr"}, refs: []string{"X", "E", "R"}},
+	{name: "enc:RL1...", list: "RL1", kind: "enc", objs: []string{"RL1", "Rd", "Ed", "Xd", "Ri", "Ei", "Xi"}, refs: []string{"R", "E", "X"}},
 	{name: "derive:Xi", kind: "derive", objs: []string{"Xi"}, drv: "Xi", refs: []string{"X"}},
 	{name: "derive:Ei", kind: "derive", objs: []string{"Ei"}, drv: "Ei", refs: []string{"E"}},
 	{name: "derive:Ri", kind: "derive", objs: []string{"Ri"}, drv: "Ri", refs: []string{"R"}},
@@ -224,6 +311,30 @@ var wrongPool = []*tmpl{
 	{name: "wrong:Xi,Ei,Ri/R2", kind: "wrong", objs: []string{"Xi", "Ei", "Ri"}, ids: []string{"Xi", "Ei", "Ri"}, file: "R2"},
 }
 
+func init() {
+	// shared identity lists: every list x every file kind, so that the match
+	// is first, in the middle and last; plus foreign files nobody opens
+	all := []string{"Xi", "Si", "Ei", "Ri"}
+	for _, l := range []string{"IL0", "IL1", "IL2"} {
+		for _, f := range []string{"X1", "S1", "E1", "R1"} {
+			decPool = append(decPool, &tmpl{name: "dec:" + l + ".../" + f, key: "dec:" + l + "...", list: l, kind: "dec",
+				objs: append([]string{l}, all...), file: f})
+		}
+	}
+	for i, f := range []string{"X2", "R2", "E2", "S2"} {
+		l := []string{"IL0", "IL1", "IL2", "IL1"}[i]
+		wrongPool = append(wrongPool, &tmpl{name: "wrong:" + l + ".../" + f, key: "wrong:" + l + "...", list: l, kind: "wrong",
+			objs: append([]string{l}, all...), file: f})
+	}
+}
+
+func (t *tmpl) keyName() string {
+	if t.key != "" {
+		return t.key
+	}
+	return t.name
+}
+
 func poolFor(mix string) []*tmpl {
 	var p []*tmpl
 	switch mix {
@@ -235,11 +346,9 @@ func poolFor(mix string) []*tmpl {
 		p = append(append(p, encPool...), decPool...)
 	case "wrong":
 		// wrong-identity decrypts interleaved with correct decrypts and encrypts
-		for i := 0; i < len(wrongPool); i++ {
-			p = append(p, wrongPool[i], decPool[i%len(decPool)])
-			if i%2 == 0 {
-				p = append(p, encPool[(i/2)%len(encPool)])
-			}
+		p = append(append(p, wrongPool...), decPool...)
+		for i := 0; i < len(encPool); i += 2 {
+			p = append(p, encPool[i])
 		}
 	default:
 		panic("mix " + mix)
@@ -270,9 +379,10 @@ func opsPerG(G int) int {
 var tick atomic.Int64
 
 type opInst struct {
-	t    *tmpl
-	g, j int
-	file []byte // dec/wrong input, enc output
+	t       *tmpl
+	g, j    int
+	file    []byte // dec/wrong input, enc output
+	scratch []byte // reusable output buffer
 
 	call, head, ret int64
 	io              int64
@@ -307,6 +417,9 @@ func (w *world) recipients(t *tmpl) []age.Recipient {
 			return []age.Recipient{w.ri.Recipient()}
 		}
 	}
+	if t.list != "" {
+		return w.recLists[t.list] // the shared slice itself
+	}
 	out := make([]age.Recipient, len(t.recs))
 	for i, n := range t.recs {
 		out[i] = w.rec[n]
@@ -331,9 +444,8 @@ func execOp(w *world, op *opInst, pt []byte, rng *rand.Rand) {
 	}()
 	switch op.t.kind {
 	case "enc", "derive":
-		var buf bytes.Buffer
-		buf.Grow(len(pt) + (len(pt)/65536+1)*16 + 1024)
-		dst := &mon.PerturbWriter{W: cw{&buf, &op.io}, Rng: rng}
+		buf := bytes.NewBuffer(op.scratch[:0])
+		dst := &mon.PerturbWriter{W: cw{buf, &op.io}, Rng: rng}
 		op.call = tick.Add(1)
 		wc, err := age.Encrypt(dst, w.recipients(op.t)...)
 		op.head = tick.Load()
@@ -362,12 +474,17 @@ func execOp(w *world, op *opInst, pt []byte, rng *rand.Rand) {
 		}
 		op.file = buf.Bytes()
 	case "dec", "wrong":
-		ids := make([]age.Identity, len(op.t.ids))
-		for i, n := range op.t.ids {
-			ids[i] = w.ids[n]
+		var ids []age.Identity
+		if op.t.list != "" {
+			ids = w.idLists[op.t.list] // the shared slice itself
+		} else {
+			ids = make([]age.Identity, len(op.t.ids))
+			for i, n := range op.t.ids {
+				ids[i] = w.ids[n]
+			}
 		}
 		src := &mon.PerturbReader{R: cr{bytes.NewReader(op.file), &op.io}, Rng: rng}
-		out := make([]byte, 0, len(pt)+16)
+		out := op.scratch[:0]
 		buf := make([]byte, 16<<10)
 		op.call = tick.Add(1)
 		r, err := age.Decrypt(src, ids...)
@@ -414,14 +531,14 @@ func execOp(w *world, op *opInst, pt []byte, rng *rand.Rand) {
 
 var baseCache = map[int][]byte{}
 
-func ownPlain(size, rep, round, g int) []byte {
+func ownPlain(size, rep, block, g int) []byte {
 	base, ok := baseCache[size]
 	if !ok {
 		base = mon.DetBytes(fmt.Sprintf("c20/base/%d", size), size)
 		baseCache[size] = base
 	}
 	p := append([]byte(nil), base...)
-	tag := sha256.Sum256([]byte(fmt.Sprintf("c20/own/%d/%d/%d", rep, round, g)))
+	tag := sha256.Sum256([]byte(fmt.Sprintf("c20/own/%d/%d/%d", rep, block, g)))
 	for _, at := range []int{0, 65536 - 16, len(p) - 32} {
 		for i := 0; i < 32; i++ {
 			if k := at + i; k >= 0 && k < len(p) {
@@ -439,16 +556,23 @@ func runRound(w *world, jb *job, no, G, P, size int, mix string) *roundOut {
 		ByTmpl: map[string]int{}, ByKind: map[string]int{}, Obj: map[string]*objOut{}, ErrClasses: map[string]int{}}
 	label := fmt.Sprintf("c20/rep%d/round%d", jb.Rep, no)
 	rrng := mon.NewRNG(jb.Seed, label)
+	w.fresh()
 	pool := poolFor(mix)
 	rrng.Shuffle(len(pool), func(i, j int) { pool[i], pool[j] = pool[j], pool[i] })
 	per := opsPerG(G)
 
+	if w.blkPts == nil || w.blkP != P || w.blkSize != size {
+		w.blkP, w.blkSize, w.blkPts, w.blkFiles = P, size, map[int][]byte{}, map[string][]byte{}
+	}
 	pts := make([][]byte, G)
 	rngs := make([]*rand.Rand, G)
 	plans := make([][]*opInst, G)
 	var all []*opInst
 	for g := 0; g < G; g++ {
-		pts[g] = ownPlain(size, jb.Rep, no, g)
+		if w.blkPts[g] == nil {
+			w.blkPts[g] = ownPlain(size, jb.Rep, P, g)
+		}
+		pts[g] = w.blkPts[g]
 		rngs[g] = mon.NewRNG(jb.Seed, fmt.Sprintf("%s/g%d", label, g))
 		start := 0
 		if G >= 8 && rrng.Intn(4) == 0 {
@@ -461,15 +585,47 @@ func runRound(w *world, jb *job, no, G, P, size int, mix string) *roundOut {
 		}
 	}
 	// inputs of the decrypting operations, made by the reference implementation
-	mon.ParN(jb.Full, len(all), func(i int) {
-		op := all[i]
+	// (one file per goroutine and key kind, kept for the block)
+	type need struct {
+		party string
+		g     int
+		file  []byte
+	}
+	var needs []*need
+	seenNeed := map[string]bool{}
+	for _, op := range all {
+		if op.t.kind != "dec" {
+			continue
+		}
+		k := fmt.Sprintf("%s/%d", op.t.file, op.g)
+		if w.blkFiles[k] == nil && !seenNeed[k] {
+			seenNeed[k] = true
+			needs = append(needs, &need{party: op.t.file, g: op.g})
+		}
+	}
+	mon.ParN(jb.Full, len(needs), func(i int) {
+		n := needs[i]
+		n.file = w.buildFile(n.party, pts[n.g], mon.NewRNG(jb.Seed, fmt.Sprintf("c20/rep%d/P%d/S%d/file/%s/%d", jb.Rep, P, size, n.party, n.g)))
+	})
+	for _, n := range needs {
+		w.blkFiles[fmt.Sprintf("%s/%d", n.party, n.g)] = n.file
+	}
+	wantCap := size + (size/65536+1)*16 + 4096
+	for i, op := range all {
 		switch op.t.kind {
 		case "dec":
-			op.file = w.buildFile(op.t.file, pts[op.g], mon.NewRNG(jb.Seed, fmt.Sprintf("%s/file/%d/%d", label, op.g, op.j)))
+			op.file = w.blkFiles[fmt.Sprintf("%s/%d", op.t.file, op.g)]
 		case "wrong":
 			op.file = w.wrongFiles[op.t.file]
 		}
-	})
+		for len(w.scratch) <= i {
+			w.scratch = append(w.scratch, nil)
+		}
+		if cap(w.scratch[i]) < wantCap {
+			w.scratch[i] = make([]byte, 0, wantCap)
+		}
+		op.scratch = w.scratch[i][:0]
+	}
 
 	// the measured phase
 	t1 := time.Now()
@@ -511,6 +667,9 @@ func runRound(w *world, jb *job, no, G, P, size int, mix string) *roundOut {
 		}
 	})
 
+	w.checkLists(ro, all, fmt.Sprintf("goroutines %d, GOMAXPROCS=%d, payload %d, mix %s", G, P, size, mix),
+		map[string]any{"rep": jb.Rep, "round": no, "goroutines": G, "gomaxprocs": P, "payload": size, "mix": mix})
+
 	// bookkeeping
 	for _, op := range all {
 		ro.Ops++
@@ -522,7 +681,7 @@ func runRound(w *world, jb *job, no, G, P, size int, mix string) *roundOut {
 		}
 		if op.fail != "" {
 			ro.Fails = append(ro.Fails, failOut{
-				Key:  "result:" + op.t.name + ":" + op.fail,
+				Key:  "result:" + op.t.keyName() + ":" + op.fail,
 				What: fmt.Sprintf("%s by goroutine %d of %d (GOMAXPROCS=%d, payload %d, mix %s): %s", op.t.name, op.g, G, P, size, mix, op.failWhat),
 				Case: map[string]any{"rep": jb.Rep, "round": no, "goroutines": G, "gomaxprocs": P, "payload": size, "mix": mix,
 					"goroutine": op.g, "op_index": op.j, "template": op.t.name, "objects": op.t.objs, "call": op.call, "ret": op.ret},
@@ -534,6 +693,92 @@ func runRound(w *world, jb *job, no, G, P, size int, mix string) *roundOut {
 		fmt.Fprintf(os.Stderr, "timing rep=%d G=%d P=%d size=%d mix=%s ops=%d setup=%v run=%v verify=%v\n", jb.Rep, G, P, size, mix, len(all), t1.Sub(t0), t2.Sub(t1), time.Since(t2))
 	}
 	return ro
+}
+
+// checkLists is the part of oracle (b) that concerns the shared lists: after
+// the round every list the round used must hold the same values in the same
+// order, and a sequential pass with it (one used identity list and one used
+// recipient list per round) must still open a file of every kind / produce a
+// file every addressed key opens.
+func (w *world) checkLists(ro *roundOut, all []*opInst, where string, cs map[string]any) {
+	used := map[string]bool{}
+	for _, op := range all {
+		if op.t.list != "" {
+			used[op.t.list] = true
+		}
+	}
+	var idUsed, recUsed []string
+	for n := range used {
+		if _, ok := idListDef[n]; ok {
+			idUsed = append(idUsed, n)
+		} else {
+			recUsed = append(recUsed, n)
+		}
+	}
+	sort.Strings(idUsed)
+	sort.Strings(recUsed)
+	fail := func(key, what string, extra map[string]any) {
+		c := map[string]any{}
+		for k, v := range cs {
+			c[k] = v
+		}
+		for k, v := range extra {
+			c[k] = v
+		}
+		ro.Fails = append(ro.Fails, failOut{Key: key, What: what + " (" + where + ")", Case: c})
+	}
+	for _, n := range idUsed {
+		ro.ListChecks++
+		if got, want := w.idListState(n), idListDef[n]; strings.Join(got, ",") != strings.Join(want, ",") {
+			fail("result:shared-identity-list:modified", fmt.Sprintf("the caller's []age.Identity %s passed as ids... to concurrent Decrypt calls is [%s] after the round, was [%s]",
+				n, strings.Join(got, ","), strings.Join(want, ",")), map[string]any{"list": n, "got": got, "want": want})
+		}
+	}
+	for _, n := range recUsed {
+		ro.ListChecks++
+		if got, want := w.recListState(n), recListDef[n]; strings.Join(got, ",") != strings.Join(want, ",") {
+			fail("result:shared-recipient-list:modified", fmt.Sprintf("the caller's []age.Recipient %s passed as recs... to concurrent Encrypt calls is [%s] after the round, was [%s]",
+				n, strings.Join(got, ","), strings.Join(want, ",")), map[string]any{"list": n, "got": got, "want": want})
+		}
+	}
+	// sequential pass (one goroutine, nothing else running)
+	if len(idUsed) > 0 {
+		n := idUsed[ro.Round%len(idUsed)]
+		for _, f := range []string{"X1", "S1", "E1", "R1"} {
+			ro.SeqOps++
+			var out []byte
+			r, err := age.Decrypt(bytes.NewReader(w.probes[f]), w.idLists[n]...)
+			if err == nil {
+				out, err = io.ReadAll(r)
+			}
+			if err != nil || !bytes.Equal(out, probePlain) {
+				fail("result:sequential-pass:"+n+"...:decrypt", fmt.Sprintf("after the round, a sequential Decrypt of a %s file with the shared list %s fails: %v (%d bytes)", f, n, err, len(out)),
+					map[string]any{"list": n, "file": f, "list_now": w.idListState(n)})
+			}
+		}
+	}
+	if len(recUsed) > 0 {
+		n := recUsed[ro.Round%len(recUsed)]
+		ro.SeqOps++
+		var buf bytes.Buffer
+		wc, err := age.Encrypt(&buf, w.recLists[n]...)
+		if err == nil {
+			_, err = wc.Write(probePlain)
+			if err == nil {
+				err = wc.Close()
+			}
+		}
+		if err != nil {
+			fail("result:sequential-pass:"+n+"...:encrypt", fmt.Sprintf("after the round, a sequential Encrypt to the shared list %s fails: %v", n, err), map[string]any{"list": n})
+		} else {
+			for _, rk := range []string{"X", "E", "R"} {
+				if o, err := refage.Decrypt(buf.Bytes(), w.ref[rk]); err != nil || !bytes.Equal(o.Plaintext, probePlain) {
+					fail("result:sequential-pass:"+n+"...:encrypt", fmt.Sprintf("after the round, a file sequentially encrypted to the shared list %s is not opened by reference key %s: %v", n, rk, err),
+						map[string]any{"list": n, "list_now": w.recListState(n)})
+				}
+			}
+		}
+	}
 }
 
 // analyse computes, per shared object, the overlapping operation pairs and the
